@@ -5,7 +5,19 @@ import os
 HERE = os.path.dirname(os.path.dirname(os.path.abspath(__file__)))
 
 CLAIMED = {
-    "C14": dict(
+    "C02": dict(
+        level="exploration", design="DESIGN.md 3/C02",
+        text=("After every copy-on-write helper / deepcopy of a seeded history over generated spec classes: (static) the "
+              "identity-graph intersection of receiver and result, minus the graph of the freshly built arguments and the values "
+              "of do_not_copy attributes, must be empty, and every do_not_copy attribute not targeted by the call is carried by "
+              "identity; (dynamic) a seeded tail of in-place operations on either side -- API writes at any nesting depth, direct "
+              "container mutation, some cut short by an injected callback fault -- must leave the identity snapshot of the other "
+              "side unchanged."),
+        note=("Trusted: the snapshot walker (spec instances, list/dict/set/tuple, KeyedList/KeyedSet, Box). Transform pool restricted "
+              "to functions returning deeply new objects, as the quantifier says; init=False attributes excluded (instance.attr is "
+              "the class-level object by design of the constructor)."),
+        technique="deterministic simulation: seeded operation histories with injected callback faults, identity-graph and differential-mutation oracles",
+    ),    "C14": dict(
         level="exploration", design="DESIGN.md 3/C14",
         text=("Seeded operation histories on a real KeyedSet against the reference model 'ordered mapping key -> most recently "
               "added item', over 8 item universes (self-keyed str/int, tuples and unhashable lists with an explicit key function, "
